@@ -38,6 +38,10 @@ type l1cfg struct {
 	Skip       bool // skipIntegrityCheck on both ExportTx and ReplicateTx (what TxReplicator does with its option)
 	Truncate   bool // primary truncates a prefix of its value log before exporting
 	Fork       bool // a fork of the primary provides diverging txs that are precommitted, then discarded
+	// TwinFork: the fork's txs have the shape of the primary's txs with the same ids (same keys and lengths, other
+	// bytes), so that a replacement delivered after the discard leaves the later discarded txs intact and aligned
+	// in the tx log; the replica is restarted right after the first replacement.
+	TwinFork bool
 	Window     int  // replica MaxActiveTransactions
 	PFileSize  int
 	RFileSize  int
@@ -75,6 +79,10 @@ func genL1(r *rand.Rand, i int, ntx, nalt int) l1cfg {
 		cf.PFileSize = []int{512, 1024}[r.IntN(2)]
 	}
 	cf.Fork = cf.ExtAllow && r.IntN(2) == 0
+	cf.TwinFork = cf.Fork && i%4 < 2
+	if cf.TwinFork && cf.Window < 3 {
+		cf.Window = 3
+	}
 	if cf.PEmbedded || cf.REmbedded {
 		cf.IOConc = 1
 	}
@@ -296,7 +304,21 @@ func (s *l1run) buildPrimary() bool {
 	if cf.Fork {
 		forkAt = cf.NTx/2 + s.r.IntN(cf.NTx/3)
 	}
+	twinRand := func(k int) *rand.Rand { return fw.NewRand(s.c.Seed, fmt.Sprintf("c07/l1/%s/twin-fork/%d", cf.Name, k)) }
+	twinUniq, nTwins := 0, 0
+	commitWith := func(st *store.ImmuStore, r *rand.Rand, u *int, i int, tag string) bool {
+		if _, err := commitRandomTx(st, r, cf.HdrVersion, tag, i < ntrunc, u); err != nil {
+			s.c.Inconclusive("primary commit: " + err.Error())
+			return false
+		}
+		return true
+	}
 	commit := func(st *store.ImmuStore, i int, tag string) bool {
+		if cf.TwinFork && tag == "p" && i >= forkAt && i < forkAt+nTwins {
+			// the primary's tx with the id of a fork tx: same PRNG stream, same counter, other tag
+			u := twinUniq + 1000*(i-forkAt)
+			return commitWith(st, twinRand(i-forkAt), &u, cf.NTx, tag)
+		}
 		if _, err := commitRandomTx(st, s.r, cf.HdrVersion, tag, i < ntrunc, &uniq); err != nil {
 			s.c.Inconclusive("primary commit: " + err.Error())
 			return false
@@ -322,9 +344,20 @@ func (s *l1run) buildPrimary() bool {
 				return false
 			}
 			nf := 1 + s.r.IntN(min(3, cf.Window-1))
+			if cf.TwinFork {
+				nf = max(nf, 2)
+				twinUniq, nTwins = uniq+100000, nf
+			}
 			tx := store.NewTx(12, 48)
 			for k := 0; k < nf; k++ {
-				if !commit(f, cf.NTx, "f") {
+				ok := false
+				if cf.TwinFork {
+					u := twinUniq + 1000*k
+					ok = commitWith(f, twinRand(k), &u, cf.NTx, "f")
+				} else {
+					ok = commit(f, cf.NTx, "f")
+				}
+				if !ok {
 					f.Close()
 					return false
 				}
@@ -1139,12 +1172,19 @@ func (s *l1run) restart(limit uint64) {
 		s.viol("restart/acknowledged-precommit-lost"+emb, fmt.Sprintf("ReplicateTx acknowledged up to tx %d before a clean restart; afterwards the replica is at %s", maxOK, after), nil)
 	}
 	// the reloaded precommitted txs must come from what was delivered: the primary's, or (after a discard, documented) the fork's
+	prevAlh := after.comAlh
 	for id := after.com + 1; id <= after.pre; id++ {
 		h, err := s.rep.ReadTxHeader(id, true, false)
 		if err != nil {
 			s.viol("restart/precommitted-unreadable", fmt.Sprintf("precommitted tx %d unreadable after restart: %v", id, err), nil)
 			break
 		}
+		// whatever was reloaded (the primary's txs or, documented, discarded ones), it must be a chain
+		if id > 1 && h.PrevAlh != prevAlh {
+			s.viol("restart/reloaded-precommitted-tx-does-not-chain", fmt.Sprintf("after restart the replica reports precommitted tx %d (alh %x) whose PrevAlh %x is not the alh %x of tx %d it holds: a discarded tx was reloaded on top of its replacement (frontier %s)", id, h.Alh(), h.PrevAlh[:4], prevAlh[:4], id-1, after), nil)
+			break
+		}
+		prevAlh = h.Alh()
 		if id <= s.n && h.Alh() == s.alh(id) {
 			continue
 		}
@@ -1252,6 +1292,20 @@ func (s *l1run) forkScenario() {
 		s.noteDropped(id, s.forkAlh[id])
 	}
 	s.c.Distinct("L1/fork/diverged-precommits-discarded")
+	if s.cf.TwinFork && len(s.forkExp) >= 2 && s.forkAt+1 <= s.n && s.state().pre == s.forkAt {
+		// the replacement of the first discarded tx has its size: the later discarded txs stay intact right behind it
+		ctx, cancel := context.WithTimeout(context.Background(), opTimeout)
+		res := s.replicate(ctx, s.exports[s.forkAt+1])
+		cancel()
+		if res.err == nil {
+			res.id = s.forkAt + 1
+			s.checkAccepted(res, "twin-replacement")
+			same := len(s.exports[s.forkAt+1]) == len(s.forkExp[s.forkAt+1])
+			s.c.Distinct(fmt.Sprintf("L1/fork/twin-replacement-then-restart/same-size=%v/embedded=%v", same, s.cf.REmbedded))
+			delete(s.discarded, s.forkAt+1)
+			s.restart(s.forkAt + 1)
+		}
+	}
 }
 
 // ---- altered exports ----
